@@ -410,12 +410,15 @@ Fixpoint walk (F : fcfg) (d : db) (c : wctx) (n : nat) (log : list fobs) (rest :
 
 Definition sentinel : answer := AUnsol 1 [].
 
+Definition answer_is_evinfo (a : answer) : bool := match a with AEvinfo _ _ _ _ => true | _ => false end.
+
 Record rstate := {
   rs_answers : list answer;
   rs_db : db;
   rs_ctx : wctx;
   rs_settled : nat;
-  rs_log : list fobs       (* reverse order *)
+  rs_log : list fobs;      (* reverse order *)
+  rs_snaps : list db       (* ghost: the database state at every DbEvinfo call answered so far, in order *)
 }.
 
 Inductive rres :=
@@ -429,11 +432,14 @@ Fixpoint replay (fuel : nat) (F : fcfg) (run : list answer -> ostate * list oobs
       let out := snd (run (rs_answers r ++ [sentinel])) in
       match walk F (rs_db r) (rs_ctx r) (rs_settled r) (rs_log r) (skipn (rs_settled r) out) with
       | WDone d c log =>
-          RDone {| rs_answers := rs_answers r; rs_db := d; rs_ctx := c; rs_settled := length out; rs_log := log |}
+          RDone {| rs_answers := rs_answers r; rs_db := d; rs_ctx := c; rs_settled := length out; rs_log := log;
+                   rs_snaps := rs_snaps r |}
       | WAsk d c log a k =>
-          replay f F run {| rs_answers := rs_answers r ++ [a]; rs_db := d; rs_ctx := c; rs_settled := k; rs_log := log |}
+          replay f F run {| rs_answers := rs_answers r ++ [a]; rs_db := d; rs_ctx := c; rs_settled := k; rs_log := log;
+                            rs_snaps := if answer_is_evinfo a then rs_snaps r ++ [d] else rs_snaps r |}
       | WBad log =>
-          RFail {| rs_answers := rs_answers r; rs_db := rs_db r; rs_ctx := rs_ctx r; rs_settled := rs_settled r; rs_log := log |}
+          RFail {| rs_answers := rs_answers r; rs_db := rs_db r; rs_ctx := rs_ctx r; rs_settled := rs_settled r;
+                   rs_log := log; rs_snaps := rs_snaps r |}
       end
   end.
 
@@ -441,19 +447,30 @@ Definition replay_fuel : nat := 3000.
 
 Definition is_missing (o : oobs) : bool := match o with OMissingAnswer => true | _ => false end.
 
+(* what one event of the composed model yields *)
+Record rout := {
+  ro_s : ostate;               (* the session state after the event *)
+  ro_db : db;                  (* the database after the event *)
+  ro_answers : list answer;    (* the answers the replay computed *)
+  ro_out : list oobs;          (* the session's observations (run on ro_answers) *)
+  ro_log : list fobs;          (* the same with digest, answers, callbacks of the database interleaved *)
+  ro_snaps : list db           (* ghost: the database state at every DbEvinfo call, in order *)
+}.
+
 (* the final run, WITHOUT the sentinel, is the step of the composed model; it must not ask anything and
    must be as long as the output the replay settled *)
-Definition replay_event (F : fcfg) (d : db) (c : wctx) (run : list answer -> ostate * list oobs)
-  : ostate * db * list answer * list oobs * list fobs :=
-  let r0 := {| rs_answers := []; rs_db := d; rs_ctx := c; rs_settled := 0; rs_log := [] |} in
+Definition replay_event (F : fcfg) (d : db) (c : wctx) (run : list answer -> ostate * list oobs) : rout :=
+  let r0 := {| rs_answers := []; rs_db := d; rs_ctx := c; rs_settled := 0; rs_log := []; rs_snaps := [] |} in
   match replay replay_fuel F run r0 with
   | RDone r =>
       let '(s1, out) := run (rs_answers r) in
       let ok := forallb (fun o => negb (is_missing o)) out && (length out =? rs_settled r)%nat in
-      (s1, rs_db r, rs_answers r, out, rev (if ok then rs_log r else FReplayError :: rs_log r))
+      {| ro_s := s1; ro_db := rs_db r; ro_answers := rs_answers r; ro_out := out;
+         ro_log := rev (if ok then rs_log r else FReplayError :: rs_log r); ro_snaps := rs_snaps r |}
   | RFail r =>
       let '(s1, out) := run (rs_answers r) in
-      (s1, rs_db r, rs_answers r, out, rev (FReplayError :: rs_log r))
+      {| ro_s := s1; ro_db := rs_db r; ro_answers := rs_answers r; ro_out := out;
+         ro_log := rev (FReplayError :: rs_log r); ro_snaps := rs_snaps r |}
   end.
 
 (* ================================================================================================ *)
@@ -470,15 +487,20 @@ Inductive fop :=
 | FAppIin (v : N)
 | FDisconnect.
 
+Definition fstart_out (F : fcfg) (sel op appiin : N) : rout :=
+  replay_event F (fdb_new F) ctx_start (fun a => ostart (f_o F) sel op appiin a).
+
 Definition fstart (F : fcfg) (sel op appiin : N) : fstate * list fobs :=
-  let '(s1, d1, _, _, log) :=
-    replay_event F (fdb_new F) ctx_start (fun a => ostart (f_o F) sel op appiin a) in
-  ({| fs_s := s1; fs_db := d1 |}, log).
+  let ro := fstart_out F sel op appiin in
+  ({| fs_s := ro_s ro; fs_db := ro_db ro |}, ro_log ro).
+
+(* one session event with the database d (the user's transaction, if any, already applied) *)
+Definition fevent_out (F : fcfg) (st : fstate) (d : db) (ev : oevent) : rout :=
+  replay_event F d (ctx_of (f_o F) (fs_s st) ev) (fun a => ostep (f_o F) (fs_s st) ev a).
 
 Definition fevent (F : fcfg) (st : fstate) (d : db) (ev : oevent) : fstate * list fobs :=
-  let '(s1, d1, _, _, log) :=
-    replay_event F d (ctx_of (f_o F) (fs_s st) ev) (fun a => ostep (f_o F) (fs_s st) ev a) in
-  ({| fs_s := s1; fs_db := d1 |}, log).
+  let ro := fevent_out F st d ev in
+  ({| fs_s := ro_s ro; fs_db := ro_db ro |}, ro_log ro).
 
 Definition fstep (F : fcfg) (st : fstate) (op : fop) : fstate * list fobs :=
   match op with
